@@ -2,6 +2,7 @@
 import quantile_rules as Q
 import cowrite
 import generic_lints
+import predicates
 import triggers
 
 
@@ -13,6 +14,7 @@ def run(facts, tier):
         ("compaction loop", lambda fa: [o for o in Q.compaction_triggers(fa) if o["key"].startswith("density")], 2, "compaction repeats while num_retained_ >= k * levels"),
         ("levels grow only", lambda fa: [o for o in Q.level_growth(fa) if o["key"].startswith("density_sketch")], 2, "the vector of levels only grows in mutators (push_back under a size test); no resize/erase/clear can drop levels with their points"),
         ("couplings", lambda fa: cowrite.obligations(fa, ['density_sketch']), 2, "fields that every mutator updates together (counters, extremes, cached values) are still updated together"),
+        ("emptiness predicate support", lambda fa: predicates.obligations(fa, ['density_sketch']), 1, "the emptiness predicate still consults every field it depended on in the reviewed tree (spec/predicates.json)"),
         ("tautologies", lambda fa: generic_lints.tautologies(fa, ('density/',)), 2, "no comparison / assignment / min-max with two identical operands, no if-else with identical arms"),
         ("duplicate operands", lambda fa: generic_lints.duplicate_conjuncts(fa, ('density/',)), 2, "no logical chain tests the same operand twice (copy-paste of the wrong peer)"),
         ("structural triggers", lambda fa: triggers.obligations(fa, ['density_sketch']), 3, "the comparisons that decide when to resize / rebuild / compact / purge / promote keep their reviewed boundary (operator and constants)"),
